@@ -7,17 +7,17 @@ PY = '/venv/bin/python'
 CHECKS = {
  'C01': dict(level='model_checking',
    technique='stateless bounded-exhaustive exploration of real verify (lib+CLI) over trees x layouts x mutation sets vs reference verdict',
-   text='All small trees (<=4 files, <=3 dirs) x Manifest layouts (nesting, 5 compression formats, sibling Manifests, duplicates, IGNORE look-alikes, hidden names, symlinks, last_mtime) x all mutation sets of size <=1 (quick) / <=2 (thorough) are materialised and verified by the real code; every execution is compared with an independent three-valued reference verdict.',
+   text='All small trees (<=4 files, <=3 dirs) x Manifest layouts (nesting, 5 compression formats, sibling Manifests, IGNORE look-alikes, hidden names, symlinks, last_mtime, string-prefix sibling directories as verified sub-paths) x all mutation sets of size <=1 (quick) / <=2 (thorough); duplicate entries in every tag pair / hash-set relation / placement, duplicates whose individual hash values are independently right or wrong, duplicate MANIFEST entries for one sub-Manifest; directory verification (library and CLI) and single-path verification are compared with an independent three-valued reference verdict.',
    note='Trusted: gverif/refverify.py + refmanifest.py (reference), CPython os/hashlib/compression modules. Small-scope bounds as stated in evidence; tmpfs only.',
    ref='DESIGN.md §3 C01'),
  'C02': dict(level='model_checking',
    technique='bounded-exhaustive exploration of tamper x recompute-level x compression x API on the real loader vs first-broken-link oracle',
-   text='All Manifest chains of depth <=3 (quick) / <=5 (thorough) x compression assignments x MANIFEST hash sets x sibling Manifest variant x every tampered object (changed/same-size/added/removed file, DIST line) at level j x every level k<=j up to which all Manifests are recomputed consistently; every one of the five consumer APIs is queried on a fresh loader and must raise ManifestMismatch naming the first broken link iff its answer depends on it, else answer as on the untampered tree.',
+   text='All Manifest chains of depth <=3 (quick) / <=5 (thorough) x compression assignments x MANIFEST hash sets x sibling Manifest variant x every tampered object (changed/same-size/added/removed file, DIST line) at level j x every level k<=j up to which all Manifests are recomputed consistently; each case is a history at one path (the untampered tree is queried first, then tampered in place); every one of the five consumer APIs is queried on a fresh loader and again on ONE loader object in both query orders, and must raise ManifestMismatch naming the first broken link iff its answer depends on it, else answer as on the untampered tree; a link whose parent records only uncomputable hash names must make every dependent query fail.',
    note='Trusted: reference writer (gverif/refmanifest.py, treemodel.py) that plays the attacker; untampered and fully recomputed trees pin the harness. Depth 4-5 use rotations, not all 5^d assignments.',
    ref='DESIGN.md §3 C02'),
  'C07': dict(level='model_checking',
    technique='bounded-exhaustive exploration of all discrepancy sets x handler policies x scandir orders on real keep-going verify vs reference offender multiset',
-   text='Every assignment of {ok, missing, altered, resized, replaced-by-directory} to <=4 (quick) / <=6 (thorough) listed files in several directories x stray-file sets x every verified sub-path x 5 handler policies x 2 directory enumeration orders; the multiset of paths passed to the handler (and logged by gemato verify -k) must equal the reference offender set, the result must be False iff a handler call returned False, and no file descriptor may be lost per offender.',
+   text='Every assignment of {ok, missing, altered, resized, replaced-by-directory} to <=4 (quick) / <=6 (thorough) listed files in several directories x stray-file sets (incl. strays named like a Manifest) x listed files in hidden directories beneath sub-paths x every verified sub-path x 5 handler policies x 2 directory enumeration orders; the multiset of paths passed to the handler (and logged by gemato verify -k) must equal the reference offender set, the result must be False iff a handler call returned False, and no file descriptor may be lost per offender.',
    note='Trusted: gverif/refverify.py offender set; os.scandir order seam (monkeypatch). Offenders under IGNOREd paths or beneath a directory that replaced a listed file are DONT_CARE.',
    ref='DESIGN.md §3 C07'),
  'C03': dict(level='model_checking',
@@ -32,7 +32,7 @@ CHECKS = {
    ref='DESIGN.md §3 C04'),
  'C10': dict(level='model_checking',
    technique='explicit-state BFS over operation histories on the real loader/CLI with canonical state hashing; write-audit and snapshot invariants on every transition',
-   text='From 6 base states, all histories of <=4 (quick) / <=5 (thorough) operations over a 24-operation alphabet (loader lifecycle, verify/lookups, directory/single-path updates incl. ones that fail part-way through invalid path, symlink loop or injected OSError, five save variants, CLI commands, tree edits) are executed; on every transition: no data file changes, no write-type audit event and no Manifest change outside a save, and across saves DIST/IGNORE/TIMESTAMP lines, entry tags and out-of-scope entries are preserved per logical Manifest.',
+   text='From 6 base states, all histories of <=4 (quick) / <=5 (thorough) operations over a 27-operation alphabet (loader lifecycle, verify/lookups, directory/single-path updates incl. ones that fail part-way through invalid path, symlink loop or injected OSError and a single-path update of a path named like a DIST entry, five save variants, CLI commands, tree edits); base states hold DIST entries named like local files and string-prefix sibling directories are executed; on every transition: no data file changes, no write-type audit event and no Manifest change outside a save, and across saves DIST/IGNORE/TIMESTAMP lines, entry tags and out-of-scope entries are preserved per logical Manifest.',
    note='Trusted: sys.addaudithook write events + lstat/byte snapshots; reference parser for Manifest comparison. A loader is discarded when another actor (CLI update) rewrites Manifests (single-actor property).',
    ref='DESIGN.md §3 C10'),
  'C08': dict(level='exploration',
@@ -62,12 +62,12 @@ CHECKS = {
    ref='DESIGN.md §3 C17'),
  'C06': dict(level='fault_enumeration',
    technique='exhaustive single-fault enumeration: every environment call of the fault-free run x every errno, plus persistent per-object faults, injected by an owned os/open seam into real verify and update scans',
-   text='For 13 corpus trees (flat, nested and compressed Manifests, sibling and same-directory chains, IGNOREd and hidden parts, file and directory symlinks, unregistered Manifests, trees with a stray file) x 6 operations (library/CLI verify, sub-directory verify, single-path verify, library update scan, CLI update) the fault-free run is recorded call by call; then each call index x each of 8 errnos fails once (26k runs quick; thorough adds all pairs on the smallest tree) and each object fails persistently. A fault on an object outside hidden/IGNOREd subtrees must end in an OSError, a library error or a failing status - never success, never an existing object reported as missing - with the tree byte-identical afterwards and no descriptor left open.',
+   text='For 13 corpus trees (flat, nested and compressed Manifests, sibling and same-directory chains, IGNOREd and hidden parts, file and directory symlinks, unregistered Manifests, trees with a stray file) x 8 operations (library/CLI verify, keep-going library/CLI verify, sub-directory verify, single-path verify, library update scan, CLI update) the fault-free run is recorded call by call; then each call index x each of 8 errnos fails once (26k runs quick; thorough adds all pairs on the smallest tree) and each object fails persistently. A fault on an object outside hidden/IGNOREd subtrees must end in an OSError, a library error or a failing status - never success, never an existing object reported as missing - with the tree byte-identical afterwards and no descriptor left open.',
    note='Trusted: the monkeypatch seam (os.open/stat/fstat/scandir, DirEntry proxies, builtins.open with a raw read proxy). The kernel is not involved; ENOENT and the save phase are excluded. DONT_CARE: transient DirEntry.is_dir() failures that os.walk itself absorbs when the same object is opened/listed successfully later in the run.',
    ref='DESIGN.md §3 C06'),
  'C13': dict(level='model_checking',
    technique='exhaustive enumeration of all 5^3 compression assignments x mutations x APIs (result invariance) and of start assignment x boundary watermarks x formats x forced/unforced saves plus all save sequences of length <=3 (4 thorough) on the real save_manifests under a write-audit seam',
-   text='Transparency: one tree with three sub-Manifests under all 125 assignments of {plain, gz, bz2, lzma, xz} x 6 tree mutations x 22 verification/lookup queries - the observation must not depend on the assignment. Watermark: 5 start assignments x every watermark in {0, s-1, s, s+1 for each uncompressed size s, max+1} x 4 target formats x forced/unforced x edits, and every sequence of <=3 (4) saves over a 6-step alphabet (re-compression in both directions): every rewritten sub-Manifest is compressed iff its uncompressed size >= watermark, compressed files keep their format, the top-level Manifest stays plain, one file per logical Manifest, the tree verifies (reference and gemato).',
+   text='Transparency: one tree with three sub-Manifests under all 125 assignments of {plain, gz, bz2, lzma, xz} x 6 tree mutations x 22 verification/lookup queries - the observation must not depend on the assignment. Watermark: 5 start assignments x every watermark in {0, s-1, s, s+1 for each uncompressed size s, max+1} x 4 target formats x forced/unforced x edits, and every sequence of <=3 (4) saves over a 6-step alphabet (re-compression in both directions), each with a fresh loader per step and with ONE loader across the sequence: every rewritten sub-Manifest is compressed iff its uncompressed size >= watermark, compressed files keep their format, the top-level Manifest stays plain, one file per logical Manifest, the tree verifies (reference and gemato).',
    note='Trusted: gverif/refverify.py, sys.addaudithook to observe which Manifests a save wrote. Manifests not rewritten by an unforced save are DONT_CARE. old-ebuild package Manifests are judged under C19.',
    ref='DESIGN.md §3 C13'),
  'C14': dict(level='model_checking',
